@@ -30,7 +30,8 @@ def run_prot(prop, tier, seed, fail=False):
     env = dict(ENV)
     shim = os.path.join(WORK, "mlock_fail.so")
     if fail:
-        if not os.path.exists(shim):
+        src = os.path.join(VERIF, "interpose", "mlock_fail.c")
+        if not os.path.exists(shim) or os.path.getmtime(shim) < os.path.getmtime(src):
             rc, out = sh(["clang", "-shared", "-fPIC", "-O1", "-o", shim, os.path.join(VERIF, "interpose", "mlock_fail.c"), "-ldl"])
             if rc != 0:
                 raise BuildError("cannot build the mlock shim: " + out)
@@ -46,18 +47,26 @@ def run_prot(prop, tier, seed, fail=False):
                 nl = sum(1 for t in toks if t.split("@")[0] in ("lock", "clone") or t.startswith("resize")) + 1
                 ks = range(1, nl + 1) if tier == "thorough" else [1, max(1, nl // 2), nl]
                 for k in sorted(set(ks)):
-                    tk = ["failfrom:%d" % k] + toks
+                    # the errno of the refusal varies: ENOMEM (12), EAGAIN (11), EPERM (1), EINVAL (22)
+                    e = [12, 11, 1, 22][(k + len(toks) + n) % 4]
+                    tk = ["failfrom:%d" % (k if e == 12 else 1000 * e + k)] + toks
                     line = "prot %s %d %s" % (kind, n, " ".join(tk))
                     cases.append(Case(line, cls="%s/fail-k=%d" % (kind, min(k, 4))))
             else:
                 tk = protfam.with_probes(n, toks, probes=(prop == "C14"))
                 line = "prot %s %d %s" % (kind, n, " ".join(tk))
                 cases.append(Case(line, cls="%s/len=%d" % (kind, n)))
+    if prop == "C15":
+        # large allocations (glibc serves them differently: mmap threshold) and odd capacities
+        for n in (1001, 1003, 4099, 9001, 12295, 131071, 131072, 131073, 200000, 1048577):
+            for toks in (["new", "fill:a5", "resize:%d" % (2 * n + 1), "drop"], ["new", "fill:a5", "resize:3", "drop"], ["new", "fill:a5", "clone", "drop", "drop@1"],
+                         ["new", "fill:a5", "lock", "resize:%d" % (n + 4096), "resize:1", "drop"], ["new", "fill:5a", "drop"]):
+                cases.append(Case("prot bytes %d %s" % (n, " ".join(toks)), cls="bytes/large-or-odd"))
     if fail or prop != "C14":
         # Result-returning constructors under refusal / plain
         for n in protfam.LENS:
             for ctor in ("fsl:%d" % n, "fsro:%d" % n, "newlocked", "genlocked", "newrolocked", "genrolocked"):
-                for k in ([1, 2, 3] if fail else [0]):
+                for k in ([1, 2, 3, 1001, 11001, 22002] if fail else [0]):
                     pre = ["failfrom:%d" % k] if k else []
                     for kind in ("bytes", "arr") if n in protfam.ARR_LENS else ("bytes",):
                         toks = pre + ["new", "fill:a5", "lock", ctor, "ro@1", "drop@1", "rw", "drop"]
